@@ -303,7 +303,7 @@ impl ManyToOneRingBuffer {
             let limit = if producer_index > consumer_index {
                 producer_index
             } else {
-                self.buffer.capacity()
+                self.capacity
             };
 
             let mut i = consumer_index + record_descriptor::ALIGNMENT;
